@@ -12,13 +12,18 @@ D = decimal.Decimal
 FORMS = ['{}', '{{}}', '{1}', '{{1}}', '{USD}', '{{USD}}', '{1 USD}', '{{1 USD}}', '{1 # 2 USD}', '{# 2 USD}', '{1 # USD}', '{{1 # 2 USD}}',
          '{1, USD}', '{USD, 1}', '{{USD, 1}}', '{{1, USD}}', '{ 1+1 USD }', '{{# 2 USD}}']
 EXTRA = ['', ', 2000-01-01', ', "lbl"', ', *', ', 2000-01-01, "lbl", *', '"lbl", *, 2000-01-01, ']
-COMBOS = [(f, e) for f in FORMS for e in EXTRA]
+# number and currency as separate components with other components between them (each class of component at most once)
+BETWEEN = ['{1, 2000-01-01, USD}', '{USD, "lbl", *, 1}', '{{2000-01-01, 1, "lbl", USD}}', '{{USD, *, 1}}', '{1, "lbl", USD, 2000-01-01}', '{ *, USD, 2000-01-01, 1+1 }']
+# components written directly against their neighbours (no blanks)
+# (no comma directly followed by a digit: `2,2000-01-01` lexes as one number - the input-abutting-tokens finding of C06)
+ABUT = ['{1# 2 USD}', '{1 #2 USD}', '{1#2 USD}', '{{1#2 USD, 2000-01-01,"lbl",*}}', '{USD,1,*}', '{#2 USD}', '{1# USD}']
+COMBOS = [(f, e) for f in FORMS for e in EXTRA] + [(f, '') for f in BETWEEN + ABUT]
 N_ENUM = len(COMBOS) * 3
 TXN_FORMS = ['*', '* "n"', '* "p" "n"', '! "" ""', '* "p" ""', 'txn "n" #t']
 CASES = {'quick': N_ENUM + len(TXN_FORMS) + 1500, 'thorough': N_ENUM + len(TXN_FORMS) + 60000}
 SMALL_BLOCKS = 4      # runner: every 4th case keeps its stores in 2..10-token blocks
 GATES = {
-    'quick': {'cases_in_small_blocks': 50, 'evaluations': 60000, 'cost_paths': 25000, 'cost_forms_accepted': 90, 'documented_rejections_observed': 1500,
+    'quick': {'cases_in_small_blocks': 50, 'evaluations': 60000, 'cost_paths': 25000, 'cost_forms_accepted': 95, 'documented_rejections_observed': 1500,
               'txn_paths': 1500, 'generic_assignments': 3000, 'generic_long_decimals': 8, 'generic_props_seen': 60, 'reparse_checks': 20000},
     'thorough': {'evaluations': 300000, 'cost_paths': 40000, 'generic_props_seen': 70},
 }
